@@ -197,6 +197,9 @@ crc32_iscsi_00:
 
 	mov     rax, crc_init           ;; rax = crc_init;
 
+	;; len is a 32-bit int: the upper half of its register is unspecified
+	movsxd  len, len_dw
+
 	cmp     len, 8
 	jb      less_than_8
 
